@@ -39,6 +39,25 @@ kani_unit("f64", "winter-math", F64, "kani/math_f64.rs", "field::f64", [
     H("f64_canary_must_fail", ["C07"], [], "false claim: a+b == a-b", canary=True),
 ])
 
+kani_unit("f62", "winter-math", "math/src/field/f62/mod.rs", "kani/math_f62.rs", "field::f62", [
+    H("f62_constants_contract", ["C07"], ["f62::M", "f62::U", "f62::TWO_ADICITY", "f62::get_modulus_le_bytes"],
+      "M == 2^62 - 111*2^39 + 1; U*M == -1 mod 2^64; M-1 == 2^39 * odd; published constants"),
+    H("f62_add_contract", ["C07"], ["f62::add", "f62::Add::add", "f62::AddAssign"],
+      "forall a,b < 2M: r < 2M, r == a+b-kM (k<=3), residue(r) == residue(a)+residue(b) mod M"),
+    H("f62_sub_contract", ["C07"], ["f62::sub", "f62::Sub::sub", "f62::SubAssign"],
+      "forall a,b < 2M: r < 2M, residue(r) == residue(a)-residue(b) mod M"),
+    H("f62_neg_contract", ["C07"], ["f62::Neg::neg"], "forall a < 2M: r < 2M, residue(r) == -residue(a) mod M"),
+    H("f62_double_contract", ["C07"], ["f62::double"], "forall a < 2M: r < 2M, residue(r) == 2 residue(a) mod M"),
+    H("f62_normalize_eq_contract", ["C07"], ["f62::normalize", "f62::PartialEq::eq"],
+      "normalize returns the representative < M; a == b <=> same residue"),
+    H("f62_try_from_contract", ["C07"], ["f62::TryFrom<u64|u128|[u8;8]>"], "Ok iff v < M; representative < 2M"),
+    H("f62_try_from_slice_contract", ["C07", "C19"], ["f62::TryFrom<&[u8]>", "f62::Randomizable::from_random_bytes"],
+      "Ok/Some iff len == 8 and le(bytes) < M; representative < 2M"),
+    H("f62_read_from_contract", ["C07", "C12", "C06"], ["f62::Deserializable::read_from"],
+      "forall byte strings <= 9 bytes: Ok iff >= 8 bytes and le < M; representative < 2M; exactly 8 bytes consumed; never panics"),
+    H("f62_canary_must_fail", ["C07"], [], "false claim: add(a,b) < M", canary=True),
+])
+
 PROPS["C07"] = dict(
     level="proof",
     verus=True,
@@ -57,3 +76,4 @@ PROPS["C07"] = dict(
 )
 
 verus_unit("f64v", "f64", ["C07"], ["f64::BaseElement::new", "f64::Mul::mul", "traits::FieldElement::square"])
+verus_unit("f62v", "f62", ["C07"], ["f62::mul", "f62::add", "f62::sub", "f62::normalize", "f62::Add/Sub/Mul/Neg", "f62::new", "f62::as_int", "f62::double", "square", "f62::eq", "f62::exp"])
